@@ -428,7 +428,18 @@ def POWER(
     https://support.office.com/en-us/article/
         power-function-d3f2908b-56f4-4c3f-895a-07fb519c362a
     """
-    return np.power(number, power)
+    number = float(number)
+    power = float(power)
+    if number == 0 and power < 0:
+        raise xlerrors.DivZeroExcelError()
+
+    try:
+        return math.pow(number, power)
+    except (ValueError, OverflowError):
+        # A negative number raised to a fractional power, or a result that
+        # is too large to be represented.
+        raise xlerrors.NumExcelError(
+            f'{number} raised to the power {power} is not a number')
 
 
 @xl.register()
